@@ -1432,13 +1432,13 @@ class Body:
                     d.pop((loc, -1), None)
             else:
                 # any other whole assignment of a local invalidates what is known about its components
-                for k in [k for k in d if k[0] == loc and k[1] >= 0]:
+                for k in [k for k in d if k[0] == loc and isinstance(k[1], int) and k[1] >= 0]:
                     d.pop(k, None)
         t = self.term(b)
         if t["k"] == "call" and not t["dest"][1]:
-            for k in [k for k in d if k[0] == t["dest"][0]]:
+            for k in [k for k in d if k[0] == t["dest"][0] and k[0] != "D"]:
                 d.pop(k, None)
-        return tuple(sorted(d.items()))
+        return tuple(sorted(d.items(), key=repr))
 
     def _feasible_succ(self, b, env):
         t = self.term(b)
@@ -1454,6 +1454,97 @@ class Body:
                             return [tb] if not self.is_cleanup(tb) else []
                     return [t["otherwise"]]
         return self.succ[b]
+
+    def _disc_map(self):
+        """local holding a discriminant -> canonical key of the place whose discriminant it is (single definitions only)"""
+        if getattr(self, "_dmap", None) is None:
+            self._dmap = {}
+            cnt = defaultdict(int)
+            for i, j, p, rv, line in self.assigns():
+                if not p[1]:
+                    cnt[p[0]] += 1
+            for i, j, p, rv, line in self.assigns():
+                if rv[0] == "disc" and not p[1] and cnt[p[0]] == 1:
+                    pl = rv[1]
+                    root = self.copy_root([pl[0], []]) if not [x for x in pl[1] if x != "*"] or True else pl[0]
+                    self._dmap[p[0]] = (root if root is not None else pl[0], json.dumps([x for x in pl[1] if x != "*"]))
+            # knowledge is only worth carrying for places that are matched on in more than one block
+            uses = defaultdict(set)
+            for b_ in range(self.n):
+                t_ = self.term(b_)
+                if t_["k"] == "switch":
+                    p_ = op_place(t_["discr"])
+                    if p_ is not None and not p_[1] and p_[0] in self._dmap:
+                        uses[self._dmap[p_[0]]].add(b_)
+            self._dmap = {d_: k_ for d_, k_ in self._dmap.items() if len(uses.get(k_, ())) >= 2}
+        return self._dmap
+
+    def _drop_disc_knowledge(self, b, env):
+        """forget what is known about the variant of a place when the block may change it (assignment to it, a mutable borrow of it, a call writing it)"""
+        if not env or not any(isinstance(k, tuple) and k and k[0] == "D" for k, _ in env):
+            return env
+        roots = set()
+        for s in self.stmts(b):
+            if s[0] != "A":
+                continue
+            roots.add(s[1][0])
+            if s[2][0] == "ref" and s[2][1]:
+                roots.add(self.copy_root([s[2][2][0], []]) if not s[2][2][1] else s[2][2][0])
+                roots.add(s[2][2][0])
+        t = self.term(b)
+        if t["k"] == "call" and t.get("dest") is not None:
+            roots.add(t["dest"][0])
+        if not roots:
+            return env
+        return tuple((k, v) for k, v in env if not (isinstance(k, tuple) and k and k[0] == "D" and k[1] in roots))
+
+    def _edge_envs(self, b, env):
+        """[(successor, environment on that edge)]: feasible successors of b given what the path has established (constant flags, variants of
+        places that were matched on before and not changed since)"""
+        env2 = self._drop_disc_knowledge(b, self._env_after(b, env))
+        t = self.term(b)
+        succs = self._feasible_succ(b, env2)
+        if t["k"] != "switch":
+            return [(s_, env2) for s_ in succs]
+        p = op_place(t["discr"])
+        key = None
+        if p is not None and not p[1]:
+            dk = self._disc_map().get(p[0])
+            if dk is not None:
+                key = ("D", dk[0], dk[1])
+        if key is None:
+            return [(s_, env2) for s_ in succs]
+        d = dict(env2)
+        known = d.get(key)
+        arms = [(int(v) if isinstance(v, str) else v, tb) for v, tb in t["arms"]]
+        out = []
+        for s_ in succs:
+            vals = [v for v, tb in arms if tb == s_]
+            via_otherwise = (t.get("otherwise") == s_)
+            feasible = False
+            nenv = None
+            if known is None:
+                feasible = True
+            elif known[0] == "is":
+                feasible = (known[1] in vals) or (via_otherwise and known[1] not in [v for v, _ in arms])
+            else:
+                feasible = any(v not in known[1] for v in vals) or via_otherwise
+            if not feasible:
+                continue
+            if len(vals) == 1 and not (via_otherwise and known is None):
+                nd = dict(d)
+                nd[key] = ("is", vals[0])
+                nenv = tuple(sorted(nd.items(), key=repr))
+            elif via_otherwise and not vals:
+                nd = dict(d)
+                prev = known[1] if (known is not None and known[0] == "not") else frozenset()
+                if known is None or known[0] == "not":
+                    nd[key] = ("not", tuple(sorted(set(prev) | {v for v, _ in arms})))
+                nenv = tuple(sorted(nd.items(), key=repr))
+            else:
+                nenv = env2
+            out.append((s_, nenv))
+        return out
 
     def must_pass(self, start_blocks, through, targets=None):
         """True iff every feasible path from any of start_blocks to a block in `targets` (default:
@@ -1477,7 +1568,12 @@ class Body:
             if st not in parent:
                 parent[st] = None
                 dq.append(st)
+        budget = 120000
         while dq:
+            budget -= 1
+            if budget <= 0:
+                # state space too large for the path conditions: fall back to the search without discriminant knowledge
+                return self._must_pass_flags_only(start_blocks, through, discharge, targets)
             st = dq.popleft()
             b, env = st
             if b in targets and (parent[st] is not None or b in start_blocks):
@@ -1488,6 +1584,36 @@ class Body:
                     x = parent[x]
                 if not (len(path) == 1 and b in start_blocks and targets != set(self.exits()) and False):
                     return False, list(reversed(path))
+            for s, env2 in self._edge_envs(b, env):
+                if s in through or (b, s) in discharge:
+                    continue
+                ns = (s, env2)
+                if ns in parent:
+                    continue
+                parent[ns] = st
+                dq.append(ns)
+        return True, None
+
+    def _must_pass_flags_only(self, start_blocks, through, discharge, targets):
+        parent = {}
+        dq = deque()
+        for s in start_blocks:
+            if s in through:
+                continue
+            st = (s, ())
+            if st not in parent:
+                parent[st] = None
+                dq.append(st)
+        while dq:
+            st = dq.popleft()
+            b, env = st
+            if b in targets and (parent[st] is not None or b in start_blocks):
+                path = []
+                x = st
+                while x is not None:
+                    path.append(x[0])
+                    x = parent[x]
+                return False, list(reversed(path))
             env2 = self._env_after(b, env)
             for s in self._feasible_succ(b, env2):
                 if s in through or (b, s) in discharge:
@@ -1611,9 +1737,63 @@ class Body:
                 out.append((b, ve.get("Some"), ve.get("None")))
         return out
 
-    def path_avoiding(self, src_succs, dst, avoid):
-        """A path (list of blocks) from one of src_succs to dst avoiding `avoid`, or None."""
+    def variant_assumption(self, switch_info, variant):
+        """environment entry saying `the place this switch matches on holds <variant>` (for path_avoiding(.., assume=..)); None when the place is
+        matched on only once (nothing to correlate)"""
+        p = op_place(self.term(switch_info["block"])["discr"])
+        if p is None or p[1]:
+            return None
+        dk = self._disc_map().get(p[0])
+        if dk is None:
+            return None
+        for v, nm in (switch_info.get("names") or {}).items():
+            if nm == variant:
+                return ((("D", dk[0], dk[1]), ("is", int(v) if isinstance(v, str) else v)),)
+        return None
+
+    def path_avoiding(self, src_succs, dst, avoid, assume=None):
+        """A path (list of blocks) from one of src_succs to dst avoiding `avoid`, or None. `assume`: facts the path starts with (variant_assumption)."""
         avoid = set(avoid)
+        dst = set(dst)
+        plain = self._path_plain(src_succs, dst, avoid)
+        if plain is None:
+            return None
+        parent = {}
+        dq = deque()
+        env0 = tuple(sorted(assume, key=repr)) if assume else ()
+        for s in src_succs:
+            if s in avoid:
+                continue
+            st = (s, env0)
+            if st not in parent:
+                parent[st] = None
+                dq.append(st)
+        budget = 60000
+        # (paths that contradict themselves - two matches on the same unchanged value taking different arms, a flag set to a constant and then
+        # tested the other way - are not paths of the program)
+        while dq:
+            st = dq.popleft()
+            b, env = st
+            if b in dst:
+                path = []
+                x = st
+                while x is not None:
+                    path.append(x[0])
+                    x = parent[x]
+                return list(reversed(path))
+            for s, env2 in self._edge_envs(b, env):
+                ns = (s, env2)
+                if s in avoid or ns in parent:
+                    continue
+                parent[ns] = st
+                dq.append(ns)
+            budget -= 1
+            if budget <= 0:
+                # too many distinct path conditions: answer with the path found without them (an over-approximation, never an under-approximation)
+                return plain
+        return None
+
+    def _path_plain(self, src_succs, dst, avoid):
         parent = {}
         dq = deque()
         for s in src_succs:
@@ -1621,7 +1801,6 @@ class Body:
                 continue
             parent[s] = None
             dq.append(s)
-        dst = set(dst)
         while dq:
             b = dq.popleft()
             if b in dst:
